@@ -77,6 +77,10 @@ CLAIMED = {
          'Exploration by generated search over callable kind x surface form x slot position x arity (label histogram in the evidence); each stage must run exactly once, left to right, and receive converted arguments.',
          "Values flowing through a chain are strings; numeric conversions are float literal -> int. Wrong counts, nil arguments, non-convertible arguments and misplaced SafeWriters (error, not panic) are exercised by C12's failing-action matrix.",
          'DESIGN.md section 5/C14'),
+ 'C18': ('property-based testing (rapid), twin/metamorphic + model-based: generated programs that drive the Runtime API through custom functions versus their syntax twins (engine vs engine) and versus the MiniJet reference interpreter with API mirror functions; Arguments accessors versus a reflected variadic function for plain / piped / slot shapes',
+         'Exploration by generated search: Let/Set/SetOrLet/LetGlobal/Resolve/Context/YieldBlock at depth<=4 inside if/range/block/include interleaved with := and =; twins must render identical bytes or both fail; LetGlobal visibility judged by the model.',
+         'Every body opens its scope with a template-level := before an API call is made (Let from a body without an open scope is excluded); YieldBlock is used with parameterless blocks; VarMap is non-nil.',
+         'DESIGN.md section 5/C18'),
 }
 PENDING = {}
 
